@@ -39,13 +39,26 @@ impl Base64 {
 }
 
 // --- rule R10: diagnostic macros (format!, anyhow!, eprintln!, ...) become opaque calls that keep their arguments
-pub struct VArg;
 #[verifier::external_body]
-pub fn vlit(s: &str) -> (r: VArg) { VArg }
+pub struct VArg { _p: u8 }
+impl VArg {
+    /// the format-string literal this argument stands for (vlit), None for a value argument
+    pub uninterp spec fn lit(&self) -> Option<Seq<char>>;
+    /// the text `{}` shows for a value argument
+    pub uninterp spec fn shown(&self) -> Seq<char>;
+}
+/// what `Display` shows for a value (uninterpreted; for a String it is the string, which no obligation needs)
+pub uninterp spec fn display_text<T>(t: T) -> Seq<char>;
 #[verifier::external_body]
-pub fn varg<T>(t: &T) -> (r: VArg) { VArg }
+pub fn vlit(s: &str) -> (r: VArg) ensures r.lit() == Some(s@) { unimplemented!() }
 #[verifier::external_body]
-pub fn v_format(args: &[VArg]) -> (r: String) { unimplemented!() }
+pub fn varg<T>(t: &T) -> (r: VArg) ensures r.lit() is None, r.shown() == display_text(*t) { unimplemented!() }
+/// format!: the result is unconstrained except for the one shape C14 needs, `format!("\n{}", x)` = a line break
+/// followed by what `{}` shows for x (std::fmt semantics of a literal character and one `{}`)
+#[verifier::external_body]
+pub fn v_format(args: &[VArg]) -> (r: String)
+    ensures (args@.len() == 2 && args@[0].lit() == Some("\n{}"@) && args@[1].lit() is None) ==> r@ == seq!['\n'] + args@[1].shown()
+{ unimplemented!() }
 #[verifier::external_body]
 pub fn v_eprintln(args: &[VArg]) { }
 #[verifier::external_body]
